@@ -8,6 +8,7 @@ import (
 	"fmt"
 	"os"
 	"os/exec"
+	"os/signal"
 	"path/filepath"
 	"runtime"
 	"sort"
@@ -155,10 +156,28 @@ func c03Child() int {
 		}
 	}
 	mark("READY")
+	fullAt, fullDelta := int64(-1), int64(0)
+	if v := os.Getenv("VERIF_C03_FULL_AT"); v != "" {
+		fmt.Sscanf(v, "%d", &fullAt)
+		fmt.Sscanf(os.Getenv("VERIF_C03_FULL_DELTA"), "%d", &fullDelta)
+	}
 	for i, r := range hist {
 		cur = i
+		if int64(i) == fullAt {
+			// The storage fills up: from now on no file of this process can grow beyond the value log's present size
+			// plus fullDelta bytes (RLIMIT_FSIZE; the write that crosses the limit is cut short, the next one fails).
+			signal.Ignore(syscall.SIGXFSZ)
+			lim := uint64(c03LogSize(dir) + fullDelta)
+			if err := syscall.Setrlimit(syscall.RLIMIT_FSIZE, &syscall.Rlimit{Cur: lim, Max: ^uint64(0)}); err != nil {
+				mark("LIMIT-FAILED " + err.Error())
+				return 3
+			}
+			mark(fmt.Sprintf("LIMIT %d %d", i, lim))
+		}
+		before := c03LogSize(dir)
 		point("request.start")
 		got := st.do(r)
+		mark(fmt.Sprintf("GROW %d %d", i, c03LogSize(dir)-before))
 		for j, g := range got {
 			if g {
 				mark(fmt.Sprintf("ACK %d %d", i, r.Keys[j]))
@@ -176,7 +195,20 @@ func c03Child() int {
 	return 0
 }
 
+// c03LogSize is the size of the largest value-log file of the store in dir.
+func c03LogSize(dir string) int64 {
+	var max int64
+	_ = filepath.Walk(dir, func(p string, info os.FileInfo, err error) error {
+		if err == nil && info.Mode().IsRegular() && strings.HasSuffix(p, ".vlog") && info.Size() > max {
+			max = info.Size()
+		}
+		return nil
+	})
+	return max
+}
+
 type c03Marks struct {
+	grow   map[int]int64 // request index -> bytes the value log grew by
 	signed map[string]bool // "i k": request i, key k reached Sign
 	acked  map[string]bool
 	points int
@@ -186,7 +218,7 @@ type c03Marks struct {
 }
 
 func parseMarks(out string) c03Marks {
-	m := c03Marks{signed: map[string]bool{}, acked: map[string]bool{}}
+	m := c03Marks{signed: map[string]bool{}, acked: map[string]bool{}, grow: map[int]int64{}}
 	for _, l := range strings.Split(out, "\n") {
 		f := strings.Fields(l)
 		if len(f) == 0 {
@@ -198,6 +230,12 @@ func parseMarks(out string) c03Marks {
 			m.signed[f[1]+" "+f[2]] = true
 		case "ACK":
 			m.acked[f[1]+" "+f[2]] = true
+		case "GROW":
+			var i int
+			var g int64
+			fmt.Sscanf(f[1], "%d", &i)
+			fmt.Sscanf(f[2], "%d", &g)
+			m.grow[i] = g
 		case "POINTS":
 			fmt.Sscanf(f[1], "%d", &m.points)
 		case "DONE":
@@ -329,6 +367,9 @@ type c03Stats struct {
 	histories    int
 	signedSeen   int
 	variants     map[string]int
+	fullRuns     int
+	fullRefused  int // runs in which the request under the full storage was not signed
+	fullSigned   int // runs in which it was signed (the write fitted) and the record was found after restart
 }
 
 // C03 enumerates crash points.
@@ -388,9 +429,9 @@ func C03(tier string) int {
 		return run.Finish()
 	}
 	run.Coverage = map[string]any{
-		"evaluations":                            stats.kills + stats.images,
+		"evaluations":                            stats.kills + stats.images + stats.fullRuns,
 		"distinct_nontrivial":                    stats.histories,
-		"rule":                                   "histories of 1-2 requests (all over an 8-request menu incl. conflicting ones, single/batch/proposal on 2 keys; 3 in thorough) plus fixed length-4 histories, run by a child process on the real signer stack; (1) the child is killed with SIGKILL at every hook point (store enter/exit, rules enter/exit, sign, request start/end); (2) the child runs under strace and every system-call boundary on the storage directory is a power-loss point: for each, every directory image allowed by the persistence model (metadata in order; O_DSYNC writes durable at exit and absent/complete/torn while in flight; other writes volatile until fsync and dropped as none/all/each/each suffix) is materialised; every image and every killed directory is reopened by the real code and probed with every request conflicting with a request that had reached signing: either the instance refuses to start or it refuses all of them; distinct = histories",
+		"rule":                                   "histories of 1-2 requests (all over an 8-request menu incl. conflicting ones, single/batch/proposal on 2 keys; 3 in thorough) plus fixed length-4 histories, run by a child process on the real signer stack; (1) the child is killed with SIGKILL at every hook point (store enter/exit, rules enter/exit, sign, request start/end); (2) the child runs under strace and every system-call boundary on the storage directory is a power-loss point: for each, every directory image allowed by the persistence model (metadata in order; O_DSYNC writes durable at exit and absent/complete/torn while in flight; other writes volatile until fsync and dropped as none/all/each/each suffix) is materialised; every image and every killed directory is reopened by the real code and probed with every request conflicting with a request that had reached signing: either the instance refuses to start or it refuses all of them; (3) the storage runs full (RLIMIT_FSIZE in the child: the write crossing the limit is cut short, every later write fails) from each request of the history on, at offsets over the bytes that request appends to the value log, and the same restart-and-probe oracle is applied; distinct = histories",
 		"samples":                                samples.List(),
 		"exhaustive":                             !capped,
 		"histories":                              stats.histories,
@@ -400,6 +441,9 @@ func C03(tier string) int {
 		"images_failed_closed":                   stats.failedClosed,
 		"requests_reaching_signing_before_crash": stats.signedSeen,
 		"image_variants":                         stats.variants,
+		"storage_full_runs":                      stats.fullRuns,
+		"storage_full_request_not_signed":        stats.fullRefused,
+		"storage_full_request_signed":            stats.fullSigned,
 		"strace_available":                       traced,
 	}
 	run.Assumptions = []string{
@@ -466,6 +510,61 @@ func c03History(run *ev.Run, h []HReq, stats *c03Stats, samples *ev.Samples, tra
 	if traced {
 		if err := c03Traced(run, h, hs, root, stats, tier); err != nil {
 			return err
+		}
+	}
+	// (3) the storage fills up while a request is served.
+	return c03Full(run, h, hs, root, clean, stats, tier)
+}
+
+// c03Full lets the storage run full at every request of the history and at every offset of what that request writes
+// to the value log (quick: at the first and last byte, the middle, and every 16th byte): the write that crosses the
+// limit is cut short and every later write fails. Whatever reached signing must be found recorded after a restart.
+func c03Full(run *ev.Run, h []HReq, hs []string, root string, clean c03Marks, stats *c03Stats, tier string) error {
+	for i := range h {
+		g := clean.grow[i]
+		if g <= 0 {
+			continue
+		}
+		var deltas []int64
+		for d := int64(0); d < g; d++ {
+			if tier == "thorough" || d == 0 || d == 1 || d == g/2 || d == g-1 || d%16 == 0 {
+				deltas = append(deltas, d)
+			}
+		}
+		for _, d := range deltas {
+			dir := filepath.Join(root, fmt.Sprintf("full-%d-%d", i, d))
+			out, err := runChild(h, dir, 0, fmt.Sprintf("VERIF_C03_FULL_AT=%d", i), fmt.Sprintf("VERIF_C03_FULL_DELTA=%d", d), "VERIF_C03_NOCLOSE=1")
+			if err != nil {
+				return err
+			}
+			m := parseMarks(out)
+			limited := false
+			for _, l := range m.raw {
+				if strings.HasPrefix(l, "LIMIT ") {
+					limited = true
+				}
+			}
+			if !limited {
+				return fmt.Errorf("storage-full run (request %d, delta %d) did not reach the limit: %v", i, d, m.raw)
+			}
+			_, viols, err := c03Recover(dir, h, m.signed)
+			if err != nil {
+				return err
+			}
+			stats.mu.Lock()
+			stats.fullRuns++
+			if m.signed[fmt.Sprintf("%d %d", i, h[i].Keys[0])] {
+				stats.fullSigned++
+			} else {
+				stats.fullRefused++
+			}
+			stats.mu.Unlock()
+			for _, v := range viols {
+				run.Violate(fmt.Sprintf("storage-full:%s:request=%d", strings.Join(hs, ";"), i),
+					fmt.Sprintf("history [%s], storage full from request %d on (value log may grow by %d more bytes): %s", strings.Join(hs, ", "), i, d, v),
+					map[string]any{"check": "C03", "history": h, "full_at": i, "full_delta": d})
+			}
+			_ = os.RemoveAll(dir)
 		}
 	}
 	return nil
